@@ -77,7 +77,18 @@ type run struct {
 
 func (r *run) render() any { return r.hist }
 
-func (r *run) observe() *obs { return &obs{d: r.k.ObserveDPoS(), c: r.k.ObserveCR()} }
+func (r *run) observe() *obs {
+	o := &obs{d: r.k.ObserveDPoS(), c: r.k.ObserveCR()}
+	if pat := os.Getenv("RBK_WATCH"); pat != "" {
+		// debugging aid: print the leaves whose path contains RBK_WATCH
+		for _, l := range append(o.d.Live.Lines(), o.c.Live.Lines()...) {
+			if strings.Contains(l, pat) {
+				fmt.Printf("RBK watch h=%d %s\n", r.k.Height, l)
+			}
+		}
+	}
+	return o
+}
 
 type view struct {
 	name string
